@@ -471,6 +471,109 @@ def rule_writer_validates(rep: Report, repo: Repo) -> None:
               f'last validation line {last_val} < first mutation line {first_mut}', f'{W}:{add.lineno}')
 
 
+def rule_range_exact(rep: Report, repo: Repo) -> None:
+    rep.rule('C06.RANGE-EXACT', 'the range validations of the container are exact on their boundaries, on both sides alike: folded on a grid '
+             'of boundary values, the writer rejects flags iff flags < 0 or flags >= 2^64, a segment iff start < 0 or start + length >= '
+             '2^64 (the native loader refuses a range that reaches 2^64), data iff a word is < 0 or >= 2^w; the reader rejects a segment '
+             'iff start + length >= 2^64. A boundary moved by one on one side makes the two sides disagree about a legal file', 4)
+    from ..excflow import refusal_tests
+    B = 1 << 64
+
+    def names_of(e: ast.AST) -> Set[str]:
+        return {norm(x) for x in ast.walk(e) if isinstance(x, (ast.Name, ast.Attribute))}
+
+    def grid(name: str, tests: List[ast.expr], envs: List[Dict[str, int]], want: Any, site: str) -> None:
+        """the refusals `tests` (any of them) against the reference predicate on every environment"""
+        bad: List[str] = []
+        if not tests:
+            bad.append('the validating test was not found')
+        for env in envs if tests else []:
+            try:
+                got = any(bool(eval_int_expr(t, env)) for t in tests)
+            except AnalysisError as ex:
+                bad.append(f'not foldable: {ex}')
+                break
+            if got != bool(want(env)):
+                bad.append(f'{ {k: (hex(v) if abs(v) > 99 else v) for k, v in env.items()} }: rejects={got}, reference {bool(want(env))}')
+        rep.check(not bad, 'C06.RANGE-EXACT', name, bad[0] if bad else f'agrees with the reference on {len(envs)} boundary cases', site)
+    wi = repo.func(W, 'Writer.__init__')
+    grid('Writer:flags', _refusals_about(wi, {'flags'}), [{'flags': v} for v in (-2, -1, 0, 1, B - 1, B, B + 1)],
+         lambda e: e['flags'] < 0 or e['flags'] >= B, f'{W}:{wi.lineno} Writer.__init__')
+    # aligned, non-empty segments: of all validations that speak about (start, length) only the range test can refuse them
+    wa = repo.func(W, 'Writer.add_segment')
+    pts = [(s_, l_) for s_ in (-2, 0, 2, B - 4, B - 2, B) for l_ in (2, 4, B - 2)]
+    grid('Writer:segment-end', _refusals_about(wa, {'segment_start', 'segment_length'}), [{'segment_start': a, 'segment_length': b} for a, b in pts],
+         lambda e: e['segment_start'] < 0 or e['segment_start'] + e['segment_length'] >= B, f'{W}:{wa.lineno} Writer.add_segment')
+    im = _reader_init_memory(repo)
+    grid('Reader:segment-end', _refusals_about(im, {'segment_start', 'segment_length'}), [{'segment_start': a, 'segment_length': b} for a, b in pts if a >= 0],
+         lambda e: e['segment_start'] + e['segment_length'] >= B, f'{R}:{im.lineno} Reader._init_memory')
+    # data words: either a test on min(data) / max(data), or a per-word predicate inside a generator / comprehension / loop
+    ad = repo.func(W, 'Writer.add_data')
+    word_tests: List[ast.expr] = []
+    for x in ast.walk(ad):
+        if isinstance(x, (ast.GeneratorExp, ast.ListComp)) and len(x.generators) == 1 and x.generators[0].ifs and norm(x.generators[0].iter) == 'data' \
+                and isinstance(x.generators[0].target, ast.Name):
+            v = x.generators[0].target.id
+            for c in x.generators[0].ifs:
+                c2 = resolve_names(ad, c)
+                class S2(ast.NodeTransformer):
+                    def visit_Name(self, node: ast.Name) -> ast.AST:
+                        return ast.Name(id='word', ctx=node.ctx) if node.id == v else node
+                word_tests.append(S2().visit(ast.parse(norm(c2), mode='eval').body))
+    mm_tests: List[ast.expr] = []
+    for r, e in refusal_tests(ad):
+        if any(isinstance(c, ast.Call) and dotted(c.func) in ('min', 'max') and norm(c.args[0] if c.args else c) == 'data' for c in ast.walk(e)):
+            class S3(ast.NodeTransformer):
+                def visit_Call(self, node: ast.Call) -> ast.AST:
+                    k = norm(node)
+                    return ast.Name(id={'min(data)': 'lo', 'max(data)': 'hi'}[k], ctx=ast.Load()) if k in ('min(data)', 'max(data)') else self.generic_visit(node)
+            mm_tests.append(S3().visit(ast.parse(norm(e), mode='eval').body))
+    site = f'{W}:{ad.lineno} Writer.add_data'
+    if mm_tests:
+        envs = [{'data': 1, 'lo': lo, 'hi': hi, 'self.word_size': ws} for ws in (8, 16, 32, 64) for lo in (-1, 0, 1) for hi in ((1 << ws) - 1, 1 << ws, (1 << ws) + 1) if lo <= hi]
+        grid('Writer:data-words', mm_tests, envs, lambda e: e['lo'] < 0 or e['hi'] >= (1 << e['self.word_size']), site)
+    else:
+        envs = [{'word': v, 'self.word_size': ws} for ws in (8, 16, 32, 64) for v in (-1, 0, 1, (1 << ws) - 1, 1 << ws, (1 << ws) + 1)]
+        grid('Writer:data-words', word_tests[:1], envs, lambda e: e['word'] < 0 or e['word'] >= (1 << e['self.word_size']), site)
+
+
+def _refusals_about(fn: ast.AST, keep: Set[str]) -> List[ast.expr]:
+    """the refusals of fn whose OWN test (the condition of the raising branch, locals read through) speaks about the names in `keep`
+    only: each as one expression - the own test and, of the earlier validations it is reached after, those about `keep`"""
+    from ..excflow import raise_conditions
+    def names(x: ast.AST) -> Set[str]:
+        return {norm(y) for y in ast.walk(x) if isinstance(y, (ast.Name, ast.Attribute)) and not isinstance(getattr(y, '_skip', None), bool)}
+    out: List[ast.expr] = []
+    for r, conds in raise_conditions(fn):
+        own = [resolve_names(fn, c, allow_calls=True, depth=3) for c, pol in conds if pol]          # type: ignore[arg-type]
+        prior = [resolve_names(fn, c, allow_calls=True, depth=3) for c, pol in conds if not pol]    # type: ignore[arg-type]
+        plain = lambda e: {y.id for y in ast.walk(e) if isinstance(y, ast.Name)} | {norm(y) for y in ast.walk(e) if isinstance(y, ast.Attribute)}
+        if not own or not all(plain(c) and plain(c) <= keep for c in own):
+            continue
+        parts = list(own) + [ast.UnaryOp(op=ast.Not(), operand=c) for c in prior if plain(c) and plain(c) <= keep]
+        seen, uniq = set(), []
+        for p_ in parts:
+            k = ast.dump(p_)
+            if k not in seen:
+                seen.add(k)
+                uniq.append(p_)
+        out.append(ast.fix_missing_locations(uniq[0] if len(uniq) == 1 else ast.BoolOp(op=ast.And(), values=uniq)))
+    return out
+
+
+def _only_about(e: ast.expr, keep: Set[str]) -> Optional[ast.expr]:
+    """the conjuncts / the disjunction of a refusal that speak about `keep` only (the negated earlier validations that dominate a later
+    raise speak about other fields and are dropped)"""
+    def names(x: ast.AST) -> Set[str]:
+        return {y.id for y in ast.walk(x) if isinstance(y, ast.Name)}
+    if isinstance(e, ast.BoolOp) and isinstance(e.op, ast.And):
+        parts = [v for v in e.values if names(v) and names(v) <= keep]
+        if not parts:
+            return None
+        return parts[0] if len(parts) == 1 else ast.BoolOp(op=ast.And(), values=parts)
+    return e if names(e) and names(e) <= keep else None
+
+
 def rule_overlap(rep: Report, repo: Repo) -> None:
     rep.rule('C06.OVERLAP', 'the overlap predicates agree with interval intersection: Writer._is_collision (inclusive ends) is '
              'equivalent to s1 <= e2 and s2 <= e1 on every order type of its four arguments; its callers pass start + length - 1 '
@@ -519,12 +622,13 @@ def check(rep: Report, repo: Optional[Repo] = None) -> None:
     rule_lzma(rep, repo)
     rule_writer_validates(rep, repo)
     rule_overlap(rep, repo)
+    rule_range_exact(rep, repo)
     rep.not_decided.append('equality of the loaded image for all writer call sequences (value-level)')
     rep.assumptions.append('struct and lzma behave as documented (one-shot lzma.decompress checks the end marker)')
 
 
 MANIFEST = dict(
-    technique='writer/reader table agreement; linear-form inverse check; raise-guard vocabulary inclusion',
+    technique='boundary-exact range validations on both sides; writer/reader table agreement; linear-form inverse check; raise-guard vocabulary inclusion',
     level_text='Static, structural: the two sides of the .fjm format share format constants, field order, version gates and '
                'word codes; the relative-jump encode/decode normalise to inverse affine maps over the same index set and mask; '
                'both zero-tail branches cover the same interval; the writer validates (with its own exception) everything the '
